@@ -232,6 +232,55 @@ class BodyIndex:
         self._rd_cache[key] = res
         return res
 
+    # ---- field paths of references --------------------------------------------------------------
+    def ref_fpath(self, p, depth=0):
+        """field path (names, from the root object) of the location that place p denotes, following the single definitions of
+        the reference locals it dereferences; () when unknown or when the whole object is meant"""
+        if depth > 8:
+            return ()
+        proj = p['p']
+        path = ()
+        if proj and proj[0]['k'] == 'deref':
+            path = self.local_fpath(p['l'], depth + 1)
+            proj = proj[1:]
+        for e in proj:
+            if e['k'] == 'field':
+                path = path + ((e.get('name') or str(e.get('i'))),)
+            elif e['k'] == 'deref':
+                break                   # the object behind a pointer stored in that field: attributed to the field
+            elif e['k'] in ('index', 'constant_index', 'subslice'):
+                break                   # an element of the collection held in that field
+        return path
+
+    def local_fpath(self, l, depth=0):
+        """field path of what the reference held in local l points at (relative to its root object)"""
+        if depth > 8 or l <= self.body.argc:
+            return ()
+        ds = self.defs.get(l, [])
+        if len(ds) != 1:
+            return ()
+        (bb, idx, kind, node) = ds[0]
+        if kind == 'call':
+            decl = callee_decl(node)
+            if (decl in PROPAGATORS or decl in TRANSPARENT) and node['args'] and node['args'][0]['k'] in ('copy', 'move'):
+                return self.ref_fpath_value(node['args'][0]['place'], depth + 1)
+            return ()
+        rv = node['rv']
+        if rv['k'] in ('ref', 'rawptr'):
+            return self.ref_fpath(rv['place'], depth + 1)
+        if rv['k'] == 'copyforderef':
+            return self.ref_fpath_value(rv['place'], depth + 1)
+        if rv['k'] in ('use', 'cast') and rv['op']['k'] in ('copy', 'move'):
+            return self.ref_fpath_value(rv['op']['place'], depth + 1)
+        return ()
+
+    def ref_fpath_value(self, p, depth=0):
+        """field path of what the reference *stored in* place p points at"""
+        if p['p']:
+            # a pointer read out of a field: what it points at is attributed to that field
+            return self.ref_fpath(p, depth)
+        return self.local_fpath(p['l'], depth)
+
     # ---- provenance ----------------------------------------------------------------------------
     def place_roots(self, p, seen=frozenset()):
         """roots a reference to place p points into: ('L', local) | ('U', upvar index)"""
@@ -313,6 +362,26 @@ class BodyIndex:
                     return frozenset([('U', e['i'])])
         return self.prov(l, seen)
 
+    CONSUMERS = ('std::iter::Iterator::for_each', 'std::iter::Iterator::try_for_each', 'std::iter::Iterator::map', 'std::iter::Iterator::inspect')
+
+    def _applier(self, bb, cl):
+        """(block, terminator) of the iterator consumer / adapter call that closure local `cl` (created in block bb) is handed to"""
+        seen, work = set(), [bb]
+        while work:
+            x = work.pop()
+            if x in seen or len(seen) > 12:
+                continue
+            seen.add(x)
+            t = self.body.block[x]['term']
+            if t['k'] == 'call':
+                for i, a in enumerate(t['args']):
+                    if a['k'] in ('move', 'copy') and a['place']['l'] == cl and not a['place']['p']:
+                        if callee_decl(t) in self.CONSUMERS and i == 1:
+                            return x, t
+                        return None
+            work.extend(self.cfg.succ.get(x, []))
+        return None
+
     # ---- mutation events -----------------------------------------------------------------------
     def events(self):
         """sites that may write through a `&mut` into a root:  list of dicts
@@ -335,7 +404,7 @@ class BodyIndex:
                 else:
                     roots = frozenset([('L', p['l'])])
                 evs.append({'bb': b['i'], 'idx': i, 'kind': 'store', 'roots': roots, 'callee': 'store', 'decl': 'store',
-                            'args': [], 'rv': s['rv'], 'place': p, 'line': s['line']})
+                            'args': [], 'rv': s['rv'], 'place': p, 'line': s['line'], 'fpath': self.ref_fpath(p)})
             t = b['term']
             if t['k'] != 'call':
                 continue
@@ -358,7 +427,7 @@ class BodyIndex:
                     oargs = []          # `other` is drained, it receives nothing from `self`
                 evs.append({'bb': b['i'], 'idx': TERM_IDX, 'kind': 'call', 'roots': roots, 'callee': callee_name(t),
                             'decl': decl, 'args': oargs, 'mutarg': ai,
-                            'node': t, 'line': t['span']['l0']})
+                            'node': t, 'line': t['span']['l0'], 'fpath': self.ref_fpath_value(a['place'])})
         # writes performed inside closures created here, through captured `&mut` (for_each / try_for_each / map bodies):
         # attributed to the captured root at the closure's creation site
         if self.eng is not None:
@@ -372,6 +441,21 @@ class BodyIndex:
                     if cb is None or cb.key == body.key:
                         continue
                     ops = s['rv']['ops']
+                    # writes through the closure's own parameter (`iter_mut().for_each(|x| *x += ..)`): attributed to what the
+                    # iterator the closure is applied to points into
+                    app = self._applier(b['i'], s['place']['l']) if not s['place']['p'] else None
+                    if app is not None:
+                        abb, at = app
+                        a0 = at['args'][0]
+                        proots = self.deref_roots(a0['place'], frozenset()) if a0['k'] in ('copy', 'move') and holds_mut(a0['place']['ty']) else frozenset()
+                        if proots:
+                            for e in self.eng.bx(cb).events():
+                                if ('L', 2) in e['roots']:
+                                    evs.append({'bb': b['i'], 'idx': i, 'kind': 'closure', 'roots': proots, 'callee': e['callee'], 'decl': e['decl'],
+                                                'args': [], 'inner': e, 'cbody': cb, 'captures': ops, 'line': e['line'], 'closure_local': s['place']['l'],
+                                                'fpath': self.ref_fpath_value(a0['place'])})
+                            # the consumer call itself mutates nothing beyond what its closure does
+                            evs[:] = [x for x in evs if not (x['kind'] == 'call' and x['bb'] == abb and x.get('mutarg') == 0 and x['decl'] == callee_decl(at))]
                     for e in self.eng.bx(cb).events():
                         for r in e['roots']:
                             if r[0] != 'U' or r[1] >= len(ops):
@@ -652,9 +736,55 @@ class Engine:
         if e['kind'] == 'store':
             val = self.rvalue(body, e['bb'], e['idx'], e['rv'], depth)
             fields = tuple((x.get('name') or str(x.get('i'))) for x in e['place']['p'] if x['k'] == 'field')
+            fp = e.get('fpath') or ()
+            if len(fp) > len(fields):
+                fields = fp             # stored through a reference that itself points into a field of the object
             return T('ev', 'store', '.'.join(fields), (val,), site + ((e['idx'],),))
         args = tuple(self.operand(body, e['bb'], TERM_IDX, a, depth) for a in e['args'])
+        if e.get('fpath'):
+            # the call mutates (something inside) that field of the object only
+            return T('ev', 'call', e['decl'], args, site, tuple(e['fpath']))
+        cal = self.facts.fn.get(e.get('callee'))
+        if cal is not None and 'mutarg' in e:
+            # a crate-local callee handed the whole object: the fields it can write (summary of its own events on that parameter)
+            names = self.mutated_fields(cal, e['mutarg'] + 1)
+            if names is not None:
+                return T('ev', 'call', e['decl'], args, site, ('~',) + tuple(sorted(names)))
         return T('ev', 'call', e['decl'], args, site)
+
+    def mutated_fields(self, callee, param, depth=0):
+        """first-level field names of parameter `param` (a `&mut` to an object) that the callee may write; None = unknown / any"""
+        key = (callee.key, param)
+        memo = self.__dict__.setdefault('_mutf', {})
+        if key in memo:
+            return memo[key]
+        memo[key] = None            # recursion: unknown
+        if depth > 4:
+            return None
+        names = set()
+        for e in self.bx(callee).events_on(('L', param)):
+            fp = e.get('fpath') or ()
+            if fp:
+                names.add(fp[0])
+                continue
+            if e['kind'] == 'closure':
+                inner = e.get('inner', {})
+                if inner.get('fpath'):
+                    names.add(inner['fpath'][0])
+                    continue
+                return None
+            cal = self.facts.fn.get(e.get('callee'))
+            if cal is None or 'mutarg' not in e:
+                return None
+            sub = self.mutated_fields(cal, e['mutarg'] + 1, depth + 1)
+            if sub is None:
+                return None
+            names |= sub
+        memo[key] = names
+        return names
+
+    def _unused(self):
+        return None
 
     # ---- rvalues -------------------------------------------------------------------------------
     def rvalue(self, body, bb, idx, rv, depth=0):
@@ -866,7 +996,7 @@ class Engine:
                 if r is None:
                     r = T('call', x[1], args, x[3])
             elif tag == 'ev':
-                r = T('ev', x[1], x[2], go(x[3], d), x[4])
+                r = T('ev', x[1], x[2], go(x[3], d), x[4], *x.args[4:])
             else:
                 r = renorm(self, tag, tuple(go(y, d) for y in x.args))
             memo[k] = r
@@ -941,7 +1071,7 @@ def _subst(eng, t, env, site, memo):
     elif tag == 'closure' and len(t.args) > 2:
         r = T('closure', t[1], _subst(eng, t[2], env, site, memo), site + tuple(t[3]))
     elif tag == 'ev':
-        r = T('ev', t[1], t[2], _subst(eng, t[3], env, site, memo), site + t[4])
+        r = T('ev', t[1], t[2], _subst(eng, t[3], env, site, memo), site + t[4], *t.args[4:])
     elif tag == 'lv':
         r = T('lv', t[1], t[2], t[3], site + t[4])
     else:
@@ -1072,11 +1202,28 @@ def project_field(t, name, i):
     if tag == 'mut':
         base = project_field(t[1], name, i)
         if not (base.tag == 'field' and base[2] is t[1]):
-            stored = [e[3][0] for e in t[2] if e.tag == 'ev' and e[1] == 'store' and e[2].split('.')[0] == name and e[3]]
-            other = [e for e in t[2] if not (e.tag == 'ev' and e[1] == 'store')]
-            if not stored:
-                return base
-            return mk_phi([base] + stored)
+            stored = [e[3][0] for e in t[2] if e.tag == 'ev' and e[1] == 'store' and e[2] == name and e[3]]
+            # events inside that field: in-place calls on it (`obj.f.push(x)`) and stores below it (`obj.f.g = x`), re-rooted at the field;
+            # calls on the whole object (no path) may touch every field
+            inner = []
+            for e in t[2]:
+                if e.tag != 'ev':
+                    continue
+                if e[1] == 'call':
+                    fp = e.args[4] if len(e.args) > 4 else ()
+                    if not fp:
+                        inner.append(e)
+                    elif fp[0] == '~':
+                        if name in fp[1:]:
+                            inner.append(e)
+                    elif fp[0] == name:
+                        inner.append(T('ev', 'call', e[2], e[3], e[4], *((tuple(fp[1:]),) if len(fp) > 1 else ())))
+                elif e[1] == 'store' and e[2].split('.')[0] == name and '.' in e[2]:
+                    inner.append(T('ev', 'store', e[2].split('.', 1)[1], e[3], e[4]))
+            val = mk_phi([base] + stored) if stored else base
+            if inner:
+                return T('mut', val, tuple(inner))
+            return val
     if tag == 'via':
         return T('via', t[1], project_field(t[2], name, i))
     if tag == 'adapt' and t[1] == 'split_first' and i in (0, 1):
